@@ -137,6 +137,9 @@ def sample(cls, n, rng):
         x = np.exp(0.4 + 0.45 * rng.standard_normal(n))
     elif cls == "uniform":                                 # bounded upper tail: small optimal delta
         x = rng.uniform(0.5, 3.0, n)
+    elif cls == "smalldelta":                              # interior optimum at delta ~ 3e-4 (Beta(0.05, 1))
+        x = rng.uniform(0.0, 1.0, n) ** 20
+        x = np.where(x > 0, x, 1e-30)
     elif cls == "zeros":
         x = 1.8 * (-np.log1p(-u ** (1 / 2.2))) ** (1 / 1.1)
         k = max(1, n // 12)
@@ -275,6 +278,39 @@ def object_histories(vc, x, method, warg, fdelta):
     return out
 
 
+def free_histories(vc, c, x, method, warg, warr, base):
+    """ONE object with a past, delta free: (a) an earlier fit to a sample whose optimal delta is tiny leaves a
+    delta ~1e-4 behind, (b) the object is constructed with delta=1e-4.  The fit to x must then still be a
+    local minimiser and agree with the fresh object's fit (measured here; judged in Trace_C13)."""
+    EW = vc.ExponentiatedWeibullDistribution
+    al, be, de = base
+    xs, p, wn = prepare(x, warr)
+    out = []
+    a_small = np.random.default_rng(zlib.crc32(law_key(c).encode())).beta(0.2, 1.0, 1000)
+    a_small = np.where(a_small > 0, a_small, 1e-30)
+
+    def measure(name, obj):
+        obj.fit(x, method=method, weights=warg)
+        a2, b2, d2 = float(obj.alpha), float(obj.beta), float(obj.delta)
+        ok = all(math.isfinite(v) for v in (a2, b2, d2)) and d2 > 0
+        h = 1e-3 * d2 + 5e-4
+        e0 = xspace_error(xs, p, wn, d2) if ok else float("nan")
+        em = xspace_error(xs, p, wn, d2 - h) if ok and d2 - h > 0 else float("inf")
+        ep = xspace_error(xs, p, wn, d2 + h) if ok else float("nan")
+        out.append(dict(name=name, ab=max(qrel((a2 - al) / al), qrel((b2 - be) / be)) if ok else CLAMP,
+                        dd=abs(q6(d2) - q6(de)) if ok else CLAMP, dq=q6(d2) if ok else 0,
+                        g=qrel(gradient(xs, p, wn, d2, a2, b2)) if ok else CLAMP,
+                        emdef=bool(math.isfinite(em)), epdef=bool(math.isfinite(ep)),
+                        em=qsigned((em - e0) / e0) if math.isfinite(em) and e0 > 0 else 0,
+                        ep=qsigned((ep - e0) / e0) if math.isfinite(ep) and e0 > 0 else 0))
+
+    o = EW()
+    o.fit(a_small, method=method)           # leaves a tiny delta in the object
+    measure("after_small_delta_fit", o)
+    measure("constructed_small_delta", EW(delta=1e-4))
+    return out
+
+
 def law_again(vc, c, seed):
     """history pass: first ANOTHER instance with a different fixed delta is fitted by least squares to an
     equally long sample, then the fit of the case is repeated; returns the bit patterns of its result"""
@@ -294,7 +330,7 @@ def law_record(vc, rid, c, seed):
     isint = c["cls"] == "integers"
     rec = dict(id=rid, kind="law", wk=wk, fixed=bool(c["fixed"]), n=c["n"], exc="", haszeros=haszeros, isint=isint,
                tiecons=True, variants=[], g=0, ab=0, dq=0, dfix=0, pos=True, em=0, ep=0, hq=0, emdef=True, epdef=True,
-               bits0=[], bitsH=[], bitsA=[], bitsB=[], hist=[])
+               bits0=[], bitsH=[], bitsA=[], bitsB=[], hist=[], fhist=[])
     with warnings.catch_warnings():
         warnings.simplefilter("ignore")
         try:
@@ -323,7 +359,7 @@ def law_record(vc, rid, c, seed):
 
             zero = x == 0
             if wk == "array":
-                for cf in ([1e-3, 7.0, 1e3] if c["rep"] % 2 else [1e3, 0.37]):
+                for cf in (1.0 / float(np.sum(warr)), 1e-10, 1e10):     # normalised, tiny, huge
                     variant("scaled", x, cf * warr, cf * warr)
             elif wk == "none":
                 variant("ones", x, np.ones(len(x)), np.ones(len(x)))
@@ -336,6 +372,8 @@ def law_record(vc, rid, c, seed):
                 variant("zeroweights", x, wz, wz)
             if fdelta is not None:
                 rec["hist"] = object_histories(vc, x, method, warg, fdelta)
+            else:
+                rec["fhist"] = free_histories(vc, c, x, method, warg, warr, (al, be, de))
             if isint:       # the same numbers as integers (the weights x, x^2, x^3 must not overflow)
                 for dt in (np.int32, np.int64):
                     variant("intdtype", x.astype(dt), warg, warr)
@@ -421,7 +459,7 @@ def discrete_record(vc, rec_, rid, c):
     x = np.array(d, float)
     weights = np.array(w, float) if wk == "array" else (None if wk == "none" else wk)
     fdelta = 1.3 if "delta" in c["fixed"] else None
-    rec = dict(id=rid, kind="discrete", d=d, w=w, wk=wk, exc="", onlat=True, rx=[], rpn=[], rw=[])
+    rec = dict(id=rid, kind="discrete", d=d, w=w, wk=wk, exc="", onlat=True, rx=[], rpn=[], rw=[], wsumq=10**9)
     rec_.last = None
     with warnings.catch_warnings(), np.errstate(all="ignore"):
         warnings.simplefilter("ignore")
@@ -438,8 +476,10 @@ def discrete_record(vc, rec_, rid, c):
         rec["onlat"] = False
         return rec
     k = {"none": 0, "linear": 1, "quadratic": 2, "cubic": 3}.get(wk)
-    if wk == "array" or wk == "none":
-        wscale = 1.0
+    if wk == "none":
+        wscale = 1.0                              # None = ones, as they are
+    elif wk == "array":
+        wscale = float(sum(w))                    # an array is normalised to sum 1 (over all n observations)
     else:
         wscale = float(sum(v ** k for v in d))    # keywords are normalised to sum 1 by the code
     pn = p * 2 * n
@@ -449,8 +489,11 @@ def discrete_record(vc, rec_, rid, c):
     if wk not in ("array", "none") and wscale == 0:   # all-zero data with a keyword: 0/0 weights
         wv = np.zeros(len(xs))
         onlat = bool(np.all(np.abs(pn - np.round(pn)) < 1e-9))
+    wsum = float(np.sum(ws))
     rec.update(onlat=onlat, rx=[int(round(v)) for v in xs], rpn=[int(round(v)) for v in pn],
-               rw=[int(round(v)) if math.isfinite(v) else -1 for v in wv])
+               rw=[int(round(v)) if math.isfinite(v) else -1 for v in wv],
+               # sum of the weights handed to the regression x 1e9 (0/0 for all-zero data with a keyword: exempt)
+               wsumq=int(round(wsum * 1e9)) if math.isfinite(wsum) and wsum < 2 else (10**9 if not math.isfinite(wsum) else 2 * 10**9))
     return rec
 
 
@@ -498,6 +541,7 @@ def selftest(ctx, law_recs, disc_recs, failing):
     if int_ is not None:
         m(int_, "IntegerSameAsFloat", variants=withvar(int_, "intdtype", ab=10**8))
     m(free_arr, "WeightScaleInvariant", variants=withvar(free_arr, "scaled", dd=5000))
+    m(free_arr, "WeightScaleInvariant", variants=withvar(free_arr, "scaled", ab=2 * 10**9))
     m(free_arr, "ZeroIgnored", variants=withvar(free_arr, "zeroweights", g=10**6))
     m(free_arr, "DeltaLocalMin", em=-5000)
     m(free_arr, "DeltaLocalMin", hq=free_arr["hq"] + 10)
@@ -507,6 +551,11 @@ def selftest(ctx, law_recs, disc_recs, failing):
     m(fix_kw, "ObjectHistoryIndependent", hist=[dict(h, bits=h["bits"][:-1] + [h["bits"][-1] ^ 1]) if h["name"] == "refix"
                                                  else h for h in fix_kw["hist"]])
     m(fix_kw, "ObjectHistoryIndependent", hist=[h for h in fix_kw["hist"] if h["name"] != "deepcopy"])
+    fh = next((r for r in good if not r["fixed"] and r["wk"] == "none" and 50000 <= r["dq"] <= 5 * 10**7), None)
+    if fh is not None:
+        m(fh, "FreeDeltaHistory", fhist=[dict(fh["fhist"][0], dd=900000)] + fh["fhist"][1:])
+        m(fh, "FreeDeltaHistory", fhist=fh["fhist"][:1])
+        m(fh, "FreeDeltaHistory", fhist=[dict(fh["fhist"][0], ep=-50000)] + fh["fhist"][1:])
     m(fix_kw, "EarlierFitDoesNotLeak", bitsH=fix_kw["bitsH"][:-1] + [fix_kw["bitsH"][-1] ^ 1])
     m(dict(id=0, kind="table", method="lsq", wk="none", fixedset=[], outcome="ValueError"), "OutcomeTable")
     m(dict(id=0, kind="table", method="wlsq", wk="cubic", fixedset=["alpha"], outcome="fit-free-delta"), "OutcomeTable")
@@ -528,7 +577,7 @@ def run(ctx):
     ctx.rule = ("TLC-enumerated: (a) every (method, weights kind, fixed set) row of the decision table; (b) every data "
                 "vector of length <= 3 (quick) / 4 (thorough) over {0..3} x every weight vector over {1,2} and the "
                 "keyword/None weights x delta fixed/free x method; (c) law cases weights kind x delta fixed/free x "
-                "method x sample class {ew, weibull, lognormal, uniform, zeros, ties, integers} x n x replicate; a fixed delta "
+                "method x sample class {ew, weibull, lognormal, uniform, smalldelta, zeros, ties, integers} x n x replicate; a fixed delta "
                 "rotates over {0.7, 1.0, 1.6, 2.5, 1e-3, 1e-2, 50, 1e4}; seeded real-valued samples on seeded real-valued "
                 "samples in random order. distinct = distinct case key; non-trivial: table rows all; small vectors "
                 "with >= 2 distinct values or a zero; law cases whose fit returned finite positive parameters")
